@@ -193,10 +193,101 @@ func TestC16_TokenFactoryModel(t *testing.T) {
 				successes++
 			}
 		}
+		// the contract mints / burns through the wasm bindings, naming itself, nobody, a denom's admin or another account
+		// as the account to mint to / burn from. It is entitled to exactly what an account in its place would be: denoms it
+		// administers, and only its own balance
+		cActor := chain.Actor{Name: "contract", Addr: contract}
+		contractAttempts := 0
+		contractMint := func(t *rapid.T) {
+			d := pickDenom(t)
+			a := amounts.Draw(t, "amount")
+			to := rapid.SampledFrom([]chain.Actor{cActor, acts[0], acts[1], acts[2]}).Draw(t, "to")
+			tk := c.App.TokenFactoryKeeper
+			bk := c.App.BankKeeper.(bankkeeper.BaseKeeper)
+			cctx, write := c.Ctx().CacheContext()
+			err := tfbindings.PerformMint(&tk, &bk, cctx, contract, &tfbindingstypes.MintTokens{Denom: d, Amount: sdkmath.NewIntFromBigInt(a), MintToAddress: to.Addr.String()})
+			if err == nil {
+				write()
+			}
+			if _, berr := c.Block(); berr != nil {
+				t.Fatalf("block: %v", berr)
+			}
+			log = append(log, fmt.Sprintf("contractMint(%s,%s,->%s)=%v", shortDenom(d), a, shortAddr(to.Addr.String(), addrIdx), err == nil))
+			md := model[d]
+			if md != nil && md.admin != contract.String() {
+				foreignAttempts++
+				contractAttempts++
+			}
+			if err == nil {
+				if md == nil || md.admin != contract.String() {
+					t.Fatalf("the contract minted %s, which it does not administer (model %+v)", d, md)
+				}
+				md.supply.Add(md.supply, a)
+				bal[key(d, to)] = new(big.Int).Add(getBal(d, to), a)
+				successes++
+			}
+		}
+		contractBurn := func(t *rapid.T) {
+			d := pickDenom(t)
+			from := rapid.SampledFrom([]string{"", "", contract.String(), "admin", acts[0].Addr.String(), acts[1].Addr.String()}).Draw(t, "burnFrom")
+			md := model[d]
+			if from == "admin" {
+				from = ""
+				if md != nil {
+					from = md.admin
+				}
+			}
+			// an amount some holder could afford: the named account's balance (or the contract's), or a drawn one
+			holder := cActor
+			for _, x := range acts {
+				if x.Addr.String() == from {
+					holder = x
+				}
+			}
+			var a *big.Int
+			if rapid.Bool().Draw(t, "burnWithinBalance") && getBal(d, holder).Sign() > 0 {
+				a = new(big.Int).Div(getBal(d, holder), big.NewInt(int64(rapid.IntRange(1, 3).Draw(t, "div"))))
+				if a.Sign() == 0 {
+					a = big.NewInt(1)
+				}
+			} else {
+				a = amounts.Draw(t, "amount")
+			}
+			tk := c.App.TokenFactoryKeeper
+			cctx, write := c.Ctx().CacheContext()
+			err := tfbindings.PerformBurn(&tk, cctx, contract, &tfbindingstypes.BurnTokens{Denom: d, Amount: sdkmath.NewIntFromBigInt(a), BurnFromAddress: from})
+			if err == nil {
+				write()
+			}
+			if _, berr := c.Block(); berr != nil {
+				t.Fatalf("block: %v", berr)
+			}
+			log = append(log, fmt.Sprintf("contractBurn(%s,%s,from=%s)=%v", shortDenom(d), a, shortAddr(from, addrIdx), err == nil))
+			if md != nil && md.admin != contract.String() {
+				foreignAttempts++
+				contractAttempts++
+			}
+			if err == nil {
+				if md == nil || md.admin != contract.String() {
+					t.Fatalf("the contract burned %s of %s (burn_from_address %q), which it does not administer (model %+v)\nhistory: %v", a, d, from, md, log)
+				}
+				if from != "" && from != contract.String() {
+					t.Fatalf("the contract burned %s of %s out of %s's balance", a, d, from)
+				}
+				if getBal(d, cActor).Cmp(a) < 0 {
+					t.Fatalf("contract burn of %s succeeded with balance %s", a, getBal(d, cActor))
+				}
+				md.supply.Sub(md.supply, a)
+				bal[key(d, cActor)] = new(big.Int).Sub(getBal(d, cActor), a)
+				successes++
+			}
+		}
 		t.Repeat(map[string]func(*rapid.T){
 			"create":         create,
 			"create2":        create,
 			"contractCreate": contractCreate,
+			"contractMint":   contractMint,
+			"contractBurn":   contractBurn,
 			"mint": func(t *rapid.T) {
 				d := pickDenom(t)
 				s := pickSender(t, d)
@@ -335,7 +426,7 @@ func TestC16_TokenFactoryModel(t *testing.T) {
 						t.Fatalf("admin of %s is %q (err %v), model %q", d, am.Admin, err, md.admin)
 					}
 					sum := new(big.Int)
-					for _, a := range acts {
+					for _, a := range append(append([]chain.Actor(nil), acts...), cActor) {
 						got := bigOf(c.App.BankKeeper.GetBalance(ctx, a.Addr, d).Amount)
 						if got.Cmp(getBal(d, a)) != 0 {
 							t.Fatalf("balance of %s in %s is %s, model %s", a.Addr, d, got, getBal(d, a))
@@ -366,6 +457,9 @@ func TestC16_TokenFactoryModel(t *testing.T) {
 		}
 		if foreignAttempts > 0 {
 			labels = append(labels, "foreignAttempt")
+		}
+		if contractAttempts > 0 {
+			labels = append(labels, "contractOnForeignDenom")
 		}
 		labels = append(labels, fmt.Sprintf("denoms=%d", min(len(model), 5)), fmt.Sprintf("successes>=%d", min(successes/3*3, 12)))
 		evid.Case(t.Name(), trace, nt, labels, func() any { return log })
